@@ -180,6 +180,10 @@ def no_src_last_resort(P, res, rule="NO-SRC-LAST-RESORT"):
 def run(ctx, res):
     P = ctx.P
     no_src_last_resort(P, res)
+    # the positions of check fixes become the ranges of LSP quick-fix edits (rebuilt from line numbers), while the command
+    # line applies the same fixes by offset: a position whose line/column disagree with its offsets makes the two differ
+    from . import c23 as _c23
+    _c23.position_group_pairs(P, res)
     fns = {p: f for p, f in P.funcs.items() if p.startswith(MOD)}
     for need in ("lsp::offset_to_lsp_position", "lsp::line_char_to_offset", "lsp::whole_document_range", "lsp::garden_pos_to_lsp_range"):
         P.require_fn(need)
